@@ -180,7 +180,8 @@ FInit ==
 
 FAlphabet ==
   {Ins(T, <<<<IntV(9), sb>>>>), Ins(T, <<<<IntV(2), sa>>>>), Del(T, Eq(K, IntV(1))), Upd(T, <<<<K, IntV(7)>>>>, Eq(K, IntV(2))),
-   Cre(X, TabT), Ins(X, <<<<IntV(1), sb>>>>), Drp(T),      \* a table created in a foreign database uses ITS reference width
+   Cre(X, TabT), Ins(X, <<<<IntV(1), sb>>>>), Drp(T),
+   Cre(<<71, 111, 110, 101>>, TabT),       \* the table that orphan _Validation rows describe: refused as a whole (duplicate catalog keys) or created      \* a table created in a foreign database uses ITS reference width
    E("WriteStream", [name |-> <<110>>, data |-> "b07"]),
    E("SetSummary", [field |-> "comments", value |-> StrV(<<99>>)]),
    E("Flush", [x |-> 0]), E("IntoInner", [x |-> 0]), E("Reopen", [x |-> 0])}
